@@ -387,6 +387,31 @@ impl ObjState for [Link] {
         validate_slice_real_shift(&mut errors, &self[1..], "Link", 0);
         early_err!(errors, "Links");
 
+        // Every link reference must point inside the network
+        for link in self.iter().skip(1) {
+            for (link_idx_ref, name) in [
+                (link.idx_flip, "flip"),
+                (link.idx_next, "next"),
+                (link.idx_next_alt, "next alt"),
+                (link.idx_prev, "prev"),
+                (link.idx_prev_alt, "prev alt"),
+            ]
+            .into_iter()
+            .chain(link.link_idxs_lockout.iter().map(|x| (*x, "lockout")))
+            {
+                if link_idx_ref.idx() >= self.len() {
+                    errors.push(anyhow!(
+                        "Link {} references {} link {} outside of the network (length {})!",
+                        link.idx_curr,
+                        name,
+                        link_idx_ref,
+                        self.len()
+                    ));
+                }
+            }
+        }
+        early_err!(errors, "Links");
+
         for (idx, link) in self.iter().enumerate().skip(1) {
             // Validate flip and curr
             if link.idx_curr.idx() != idx {
